@@ -41,7 +41,7 @@ PROPS = ["Nstd.Rc.Props"]
 DRIVER = "drv_rc"
 LEAN_TARGETS = PROPS + [DRIVER]
 SOURCES = ["rc.cpp", C.REPO / "src/String.cpp", C.REPO / "src/Variant.cpp", C.REPO / "src/Memory.cpp"]
-MAXLEN = 11          # payload strings stay short: the ledger recognises payload blocks of Variant / Xml::Variant by size
+MAXLEN = 24          # payload strings stay short (line length only; payloads are not recognised by size)
 
 
 def hexs(bs):
@@ -589,9 +589,20 @@ def nontrivial(h, out):
     return (frozenset(l.split()[0] if not l.startswith("prog") else l.split()[2] for l in h), out[-2])
 
 
-def probe_hooks(harness):
+def probe(harness):
+    """(hooks present?, driver arguments = the capacity tables of the String allocation sites measured on the real class)"""
     rc, out = C.sh([str(harness), "--probe"], env=C.SAN_ENV)
-    return 1 if "hooks=1" in out else 0
+    hooks = 1 if "hooks=1" in out else 0
+    tabs = {}
+    for line in out.splitlines():
+        t = line.split()
+        if t and t[0].startswith("cap") and t[0][3:].isdigit():
+            tabs[int(t[0][3:])] = ",".join(t[1:])
+    return hooks, [tabs.get(i, "") for i in range(4)]
+
+
+def probe_hooks(harness):
+    return probe(harness)[0]
 
 
 def build(ctx):
@@ -615,8 +626,9 @@ def check(ctx):
     try:
         rng = ctx.rng
         quick = ctx.tier == "quick"
-        hooks = probe_hooks(harness)
+        hooks, dargs = probe(harness)
         ctx.cov["hooks_present"] = bool(hooks)
+        ctx.cov["capacity_policy_measured"] = [a.split(",")[:9] for a in dargs]
         corpus = C.load_corpus(ctx.prop)
         corpus = [[l if not l.startswith("hooks ") else f"hooks {hooks}" for l in h] for h in corpus]
         depth = 3 if quick else 4
@@ -653,13 +665,13 @@ def check(ctx):
                 ops[k] = ops.get(k, 0) + 1
         ctx.cov["op_histogram"] = ops
         ctx.cov["samples"] = [" ; ".join(h) for h in (rnd[:2] + mtr[:3] + mte[:1])]
-        d1 = C.differential(ctx, harness, driver, st, reference, C.default_eq, nontrivial=nontrivial)
+        d1 = C.differential(ctx, harness, driver, st, reference, C.default_eq, nontrivial=nontrivial, driver_args=dargs)
         ctx.log(f"single-threaded: {len(st)} histories, {len(d1)} disagreement(s)")
-        C.report_diffs(ctx, d1, harness, driver, reference, C.default_eq, "rc-single-threaded")
-        d2 = C.differential(ctx, harness, driver, mt, reference, C.default_eq, nontrivial=nontrivial)
+        C.report_diffs(ctx, d1, harness, driver, reference, C.default_eq, "rc-single-threaded", driver_args=dargs)
+        d2 = C.differential(ctx, harness, driver, mt, reference, C.default_eq, nontrivial=nontrivial, driver_args=dargs)
         ctx.cov["branch_hits"] = dict(sorted(BRANCH.items()))
         ctx.log(f"multi-threaded: {len(mt)} scheduled runs, {len(d2)} disagreement(s); {ctx.cov['evaluations']} lines in total")
-        C.report_diffs(ctx, d2, harness, driver, reference, C.default_eq, "rc-controlled-schedules")
+        C.report_diffs(ctx, d2, harness, driver, reference, C.default_eq, "rc-controlled-schedules", driver_args=dargs)
     finally:
         try:
             harness.unlink()
@@ -671,9 +683,9 @@ def replay(ctx, path):
     h = C.parse_replay(path)
     harness = build(ctx)
     C.lake_build([DRIVER])
-    hooks = probe_hooks(harness)
+    hooks, dargs = probe(harness)
     h = [l if not l.startswith("hooks ") else f"hooks {hooks}" for l in h]
-    diffs = C.differential(ctx, harness, C.driver_path(DRIVER), [h], reference, C.default_eq)
+    diffs = C.differential(ctx, harness, C.driver_path(DRIVER), [h], reference, C.default_eq, driver_args=dargs)
     for d in diffs:
         print(d.text())
         ctx.violation(f"replay: {d.kind}", d.text())
